@@ -53,7 +53,7 @@ CONSTANTS
 VARIABLES tmode, topen, tlastm, tcache, tlatest, tterm, tnfault, tnpk, tact           \* TtxAssembly
 VARIABLES xcnt, xbuf, xchk, xcur, xout, xmaxidx, xtx, xtxcur, xref, xinfo, xcyc, xevs, xnev, xact   \* Xds
 VARIABLES alast, acycle, anuid, acache, aevs, aprev, awlast, awrep, aaspect, awrun, axcall, axrun, anrecv, aact    \* Announce
-VARIABLES hl, hrec, hnextid, emask, hdl, hlog, hntop, hfreed, hact                     \* TtxEvents
+VARIABLES hl, hrec, hnextid, emask, hdl, hlog, hntop, hfreed, hact, htx, htxok, hnprobe                     \* TtxEvents
 \* ---- own variables
 VARIABLES pc,        \* "idle" | "frame": inside vbi_decode's loop over the lines of a frame
           nl,        \* lines of the current frame so far
@@ -78,7 +78,7 @@ VARIABLES pc,        \* "idle" | "frame": inside vbi_decode's loop over the line
 taV == <<tmode, topen, tlastm, tcache, tlatest, tterm, tnfault, tnpk, tact>>
 xV  == <<xcnt, xbuf, xchk, xcur, xout, xmaxidx, xtx, xtxcur, xref, xinfo, xcyc, xevs, xnev, xact>>
 anV == <<alast, acycle, anuid, acache, aevs, aprev, awlast, awrep, aaspect, awrun, axcall, axrun, anrecv, aact>>
-evV == <<hl, hrec, hnextid, emask, hdl, hlog, hntop, hfreed, hact>>
+evV == <<hl, hrec, hnextid, emask, hdl, hlog, hntop, hfreed, hact, htx, htxok, hnprobe>>
 ccV == <<ccs, curch, xdsmode, cclast, itv>>
 rdV == <<slot, srch, level, region>>
 frV == <<pc, nl, started, chswcd, behind>>
@@ -94,7 +94,8 @@ AN == INSTANCE Announce WITH MaxRecv <- MaxSteps, UnknownOnce <- TRUE, XdsGuard 
          nuid <- anuid, cache <- acache, evs <- aevs, prev <- aprev, wlast <- awlast, wrep <- awrep, aspect <- aaspect,
          wrun <- awrun, nrecv <- anrecv, lastAct <- aact
 TE == INSTANCE TtxEvents WITH MaxTop <- 2 * MaxSteps, MaxNested <- 0, FixUp <- TRUE, hl <- hl, rec <- hrec, nextid <- hnextid,
-         emask <- emask, dl <- hdl, log <- hlog, ntop <- hntop, freed <- hfreed, lastAct <- hact
+         emask <- emask, dl <- hdl, log <- hlog, ntop <- hntop, freed <- hfreed, lastAct <- hact,
+         MaxProbe <- 0, ResetOnActivate <- TRUE, tx <- htx, txok <- htxok, nprobe <- hnprobe
 
 -----------------------------------------------------------------------------
 CcChan0(i) == IF i < 4 THEN [mode |-> "none", row |-> 14, row1 |-> 12, roll |-> 3, col |-> 1]
@@ -110,7 +111,7 @@ Init == /\ TA!Init /\ X!Init /\ AN!Init /\ TE!Init /\ CcInit
 \* the same with one handler for every event type already registered (model checking of the line alphabet)
 InitAll == /\ TA!Init /\ X!Init /\ AN!Init /\ CcInit
            /\ hl = <<1>> /\ hrec = (1 :> [fn |-> CHOOSE f \in Fns : TRUE, ud |-> CHOOSE u \in Uds : TRUE, mask |-> Types])
-           /\ hnextid = 2 /\ emask = Types /\ hdl = TE!Idle /\ hlog = <<>> /\ hntop = 0 /\ hfreed = {} /\ hact = [a |-> "init"]
+           /\ hnextid = 2 /\ emask = Types /\ hdl = TE!Idle /\ hlog = <<>> /\ hntop = 0 /\ hfreed = {} /\ hact = [a |-> "init"] /\ htx = "none" /\ htxok = FALSE /\ hnprobe = 0
            /\ pc = "idle" /\ nl = 0 /\ started = FALSE /\ chswcd = 0 /\ behind = 0 /\ sure = TRUE /\ cdk = TRUE
            /\ ntrip = [m \in Mags |-> 0] /\ hflags = [m \in Mags |-> "none"]
            /\ slot = "none" /\ srch = "none" /\ level = 3 /\ region = 16
@@ -549,7 +550,7 @@ ProgSeeds == {PageProg(p, CHOOSE s \in p[2] : TRUE, CHOOSE c \in Cids : TRUE, n)
              \cup (IF CcChars \ {60} # {} THEN {ItvProg(n) : n \in ItvLens} ELSE {})
 InitProg == /\ TA!Init /\ X!Init /\ AN!Init /\ CcInit
             /\ hl = <<1>> /\ hrec = (1 :> [fn |-> CHOOSE f \in Fns : TRUE, ud |-> CHOOSE u \in Uds : TRUE, mask |-> Types])
-            /\ hnextid = 2 /\ emask = Types /\ hdl = TE!Idle /\ hlog = <<>> /\ hntop = 0 /\ hfreed = {} /\ hact = [a |-> "init"]
+            /\ hnextid = 2 /\ emask = Types /\ hdl = TE!Idle /\ hlog = <<>> /\ hntop = 0 /\ hfreed = {} /\ hact = [a |-> "init"] /\ htx = "none" /\ htxok = FALSE /\ hnprobe = 0
             /\ pc = "idle" /\ nl = 0 /\ started = FALSE /\ chswcd = 0 /\ behind = 0 /\ sure = TRUE /\ cdk = TRUE
             /\ ntrip = [m \in Mags |-> 0] /\ hflags = [m \in Mags |-> "none"]
             /\ slot = "none" /\ srch = "none" /\ level = 3 /\ region = 16
